@@ -1204,11 +1204,25 @@ impl<D: DependencyProvider, RT: AsyncRuntime> Solver<D, RT> {
     fn decide_assertions(&mut self, level: u32) -> Result<(), PropagationError> {
         for &(solvable_id, clause_id) in &self.state.negative_assertions {
             let value = false;
-            let decided = self
+            let decided = match self
                 .state
                 .decision_tracker
                 .try_add_decision(Decision::new(solvable_id, value, clause_id), level)
-                .map_err(|_| PropagationError::Conflict(solvable_id, value, clause_id))?;
+            {
+                Ok(decided) => decided,
+                Err(()) => {
+                    // A directly requested (soft) solvable that was accepted by an earlier run,
+                    // before the exclusions of its package were known, keeps its exemption from
+                    // them. That decision cannot be undone by the current run, so treating the
+                    // assertion as a conflict would make every later soft requirement fail.
+                    if self.state.decision_tracker.level(solvable_id)
+                        <= self.state.run_starting_level
+                    {
+                        continue;
+                    }
+                    return Err(PropagationError::Conflict(solvable_id, value, clause_id));
+                }
+            };
 
             if decided {
                 tracing::trace!(
